@@ -161,11 +161,26 @@ def r1(ck, F):
             t = cl.term(rel[0])
             arg = cl.origin(t["argv"][1])
             ok = ok and arg[0] == "call" and arg[1] == takes[0]
+            # ... and conversely: the only way to return without releasing is that no parent was held. A path that skips the
+            # release for any other reason (e.g. while the thread is panicking) leaves the parent's count one too high for ever
+            if ok:
+                for p in PathEval(cl).run():
+                    if p.end != "return" or rel[0] in p.blocks:
+                        continue
+                    none_held = any((("is_some(" in show(c[0]) or "is_none(" in show(c[0])) and "parent" in show(c[0]))
+                                    or ("take(" in show(c[0]) and "parent" in show(c[0]) and c[1] == 0) for c in p.conds)
+                    held_false = any("is_some(" in show(c[0]) and "parent" in show(c[0]) and c[1] == 0 for c in p.conds) or \
+                        any("is_none(" in show(c[0]) and "parent" in show(c[0]) and c[1] != 0 for c in p.conds) or \
+                        any(c[0][0] == "discr" and "take(" in show(c[0]) and "parent" in show(c[0]) and c[1] != 1 for c in p.conds)
+                    if not held_false:
+                        other = [(show(c[0])[:50], c[1]) for c in p.conds]
+                        ok = False
+                        conv = "a path returns without releasing the parent although one may be held (conditions %s)" % other[-3:]
         if ok:
             ck.ok("C05.R1", "Clear: releases the parent reference iff one was held", fn=cl.path)
         else:
             ck.bad("C05.R1", "Clear: releases the parent reference iff one was held", where(cl.raw["sp"]),
-                   "expected exactly one try_close(parent) on the Some edge of self.parent.take()", fn=cl.path)
+                   locals().get("conv") or "expected exactly one try_close(parent) on the Some edge of self.parent.take()", fn=cl.path)
 
 
 def r2(ck, F):
